@@ -296,6 +296,11 @@ ENTRIES += [
     V("C14-v-tuple-contains-enumerate", "C14", (STU, "[space.contains(x_i) for space, x_i in zip(self.spaces, x)]", "[space.contains(x[i]) for i, space in enumerate(self.spaces)]")),
     V("C14-v-tuple-contains-range", "C14", (STU, "[space.contains(x_i) for space, x_i in zip(self.spaces, x)]", "[self.spaces[i].contains(x[i]) for i in range(len(self.spaces))]")),
     V("C14-v-dict-flat-size-items", "C14", (SDI, "return sum(space.flat_size for space in self.spaces.values())", "return sum(space.flat_size for _, space in self.spaces.items())")),
+    M("C12-dict-plain-dict", "C12", "C12.4", (SDI, "        self.spaces = OrderedDict(spaces)", "        self.spaces = dict(spaces)")),
+    M("C12-dict-literal-comprehension", "C12", "C12.4", (SDI, "        self.spaces = OrderedDict(spaces)", "        self.spaces = {k: v for k, v in spaces.items()}")),
+    V("C12-v-dict-ordered-from-items", "C12", (SDI, "        self.spaces = OrderedDict(spaces)", "        self.spaces = OrderedDict((k, v) for k, v in spaces.items())")),
+    M("C01-x-timelimit-drops-inner", "C01", "C01.9", ("lerax/wrapper/misc.py", "        return env_truncate | (state.step_count >= self.max_episode_steps)", "        return state.step_count >= self.max_episode_steps")),
+    M("C01-x-reward-wrapper-terminal-const", "C01", "C01.9", ("lerax/wrapper/transform_reward.py", "        return self.env.terminal(state.env_state, key=key)", "        return jnp.array(False)")),
     M("C14-md-no-lower", "C14", "C14.2", (SMD, "return jnp.all((x >= 0) & (x < jnp.asarray(self.nvec)))", "return jnp.all(x < jnp.asarray(self.nvec))")),
     M("C14-mb-axis0", "C14", "C14.1", (SMB, "return jnp.all((x == 0) | (x == 1))", "return jnp.all((x == 0) | (x == 1), axis=0)")),
     M("C14-tuple-prefix", "C14", "C14.4", (STU, "return len(self.spaces) == len(other.spaces) and all(", "return all(")),
@@ -406,6 +411,10 @@ ENTRIES += [
     M("C18-skeleton-drops-kwargs", "C18", "C18.3", (UT, "path, eqx.filter_eval_shape(cls, *args, **kwargs)", "path, eqx.filter_eval_shape(cls, *args)")),
     M("C18-writer-filter-spec", "C18", "C18.3", (UT, "        eqx.tree_serialise_leaves(path, self)", "        eqx.tree_serialise_leaves(path, self, is_leaf=lambda x: False)")),
     M("C18-reader-suffix", "C18", "C18.2", (UT, "        return eqx.tree_deserialise_leaves(\n            path, eqx.filter_eval_shape", "        return eqx.tree_deserialise_leaves(\n            str(path) + \".eqx\", eqx.filter_eval_shape")),
+    M("C18-reader-normalises-foreign-suffix", "C18", "C18.2", (UT, "        return eqx.tree_deserialise_leaves(\n            path, eqx.filter_eval_shape(cls, *args, **kwargs)\n        )", "        path = Path(path)\n        if path.suffix != \".eqx\":\n            path = path.with_suffix(\".eqx\")\n        return eqx.tree_deserialise_leaves(\n            path, eqx.filter_eval_shape(cls, *args, **kwargs)\n        )")),
+    M("C18-reader-other-suffix", "C18", "C18.2", (UT, "        return eqx.tree_deserialise_leaves(\n            path, eqx.filter_eval_shape(cls, *args, **kwargs)\n        )", "        path = Path(path)\n        if path.suffix == \"\":\n            path = path.with_suffix(\".ckpt\")\n        return eqx.tree_deserialise_leaves(\n            path, eqx.filter_eval_shape(cls, *args, **kwargs)\n        )")),
+    V("C18-v-reader-adds-eqx-to-bare", "C18", (UT, "        return eqx.tree_deserialise_leaves(\n            path, eqx.filter_eval_shape(cls, *args, **kwargs)\n        )", "        path = Path(path)\n        if path.suffix == \"\":\n            path = path.with_suffix(\".eqx\")\n        return eqx.tree_deserialise_leaves(\n            path, eqx.filter_eval_shape(cls, *args, **kwargs)\n        )")),
+    V("C18-v-reader-wraps-path", "C18", (UT, "        return eqx.tree_deserialise_leaves(\n            path, eqx.filter_eval_shape(cls, *args, **kwargs)\n        )", "        path = Path(path)\n        return eqx.tree_deserialise_leaves(\n            path, eqx.filter_eval_shape(cls, *args, **kwargs)\n        )")),
     M("C18-policy-not-serializable", "C18", "C18.4", ("lerax/policy/base_policy.py", "    Serializable\n):", "    eqx.Module\n):")),
 ]
 
